@@ -1212,6 +1212,8 @@ VmTrap vm_core_execute(VmState *vm) {
                 return trap_error(vm, VM_ERR_TYPE_ERROR, "ARR_REMOVE: not an array");
             }
             uint32_t idx = (uint32_t)(idx_v.tag == TAG_INT ? idx_v.as.i64 : 0);
+            /* the array owned the removed element: drop that reference (void when out of range) */
+            vm_release(&vm->heap, vm_array_get(arr.as.array, idx));
             vm_array_remove(arr.as.array, idx);
             stack_push(vm, arr);
             break;
